@@ -16,7 +16,8 @@ def registry_for(kind: str):
     return stdreg.std_registry(kind)
 
 
-HANDLER_CODES = [-32601, -32602, -32000, -32603, 7, 2001, stack.REPLACE_BASE, stack.REPLACE_BASE + 1, stack.REPLACE_BASE + 2]
+HANDLER_CODES = [-32601, -32602, -32000, -32603, 7, 2001, stack.REPLACE_BASE, stack.REPLACE_BASE + 1, stack.REPLACE_BASE + 2,
+                 stack.REPLACE_BASE + 50, stack.REPLACE_BASE + 51, -32601, -32000]
 
 
 class C12(Check):
@@ -27,7 +28,7 @@ class C12(Check):
     rule = (
         "cases: stacks of 0..3 middlewares of kinds pass-through / short-circuit (answering calls only; answering every element incl. notifications; returning 'no response' for every element incl. calls) / request-rewriting (other method and params, same id) / "
         "response-rewriting x error-handler tables (none, generic only, per-code only, both, up to 3 handlers per key; kinds identity / "
-        "annotate / replace-by-another-code / the same callable registered again under the same or another key; keys incl. the replacement codes themselves) x middlewares passed as list / tuple / one-shot generator, handler lists as list / tuple x request documents over the 15-method registry "
+        "annotate / replace-by-another-code / change the received error's code in place / the same callable registered again under the same or another key; keys incl. the replacement codes themselves) x library or application (behaviour-preserving subclasses) message classes on the dispatcher x middlewares passed as list / tuple / one-shot generator, handler lists as list / tuple x request documents over the 15-method registry "
         "(successes, every failure class incl. an internal error raised outside the method body by a class based view's constructor, notifications, failing notifications, batches, rejected documents, non-JSON) x scripted method "
         "failures x sync / async dispatcher. Oracle: the reference server extended with the stack semantics predicts the response "
         "document, the executions and the exact event log (middleware enter events with method / id / params / context identity, handler "
@@ -39,7 +40,7 @@ class C12(Check):
         "async: no handler suspends in this check, so batch elements run to completion in request order (interleavings are C10's subject)",
     ]
     trusted_base = ['pbt/stack.py reference model', 'pbt/refserver.py']
-    required_classes = ['mw/0', 'mw/1', 'mw/2', 'mw/3', 'mw/short-circuited', 'mw/answered-notification', 'mw/passed-as-generator', 'mw/passed-as-tuple', 'mw/swallowed-call', 'handlers/same-callable-twice', 'mw/kind/rewrite-request', 'mw/kind/rewrite-response',
+    required_classes = ['mw/0', 'mw/1', 'mw/2', 'mw/3', 'mw/short-circuited', 'mw/answered-notification', 'dispatcher/custom-message-classes', 'mw/passed-as-generator', 'mw/passed-as-tuple', 'mw/swallowed-call', 'handlers/same-callable-twice', 'mw/kind/rewrite-request', 'mw/kind/rewrite-response',
                         'handlers/none', 'handlers/generic', 'handlers/per-code', 'handlers/ran', 'handlers/replace-ran',
                         'doc/batch-accepted', 'doc/not-json', 'doc/batch-rejected/invalid-element', 'notification/raises-exception', 'call/internal-error',
                         'dispatcher/sync', 'dispatcher/async', 'async/sequential-batch']
@@ -52,7 +53,7 @@ class C12(Check):
                       st.sampled_from(['echo', 'noargs', 'boom', 'rpc_err', 'nope', 'ret']),
                       st.sampled_from([[], [1], [1, 2, 3], {'a': 1}, {'x': 5}, {'zz': 0}])),
         )
-        s_h = st.sampled_from([{'kind': 'identity'}, {'kind': 'annotate'}, {'kind': 'annotate'}, {'kind': 'replace'}, {'kind': 'replace'},
+        s_h = st.sampled_from([{'kind': 'identity'}, {'kind': 'annotate'}, {'kind': 'annotate'}, {'kind': 'replace'}, {'kind': 'replace'}, {'kind': 'mutate'},
                                {'kind': 'reuse', 'of': 0}, {'kind': 'reuse', 'of': 1}])
         s_hs = st.lists(s_h, max_size=3)
         s_table = st.one_of(
@@ -67,7 +68,8 @@ class C12(Check):
                                 flavours=['valid'] * 10 + ['unknown-method'] * 2 + ['deviant', 'non-object'])
             return st.builds(
                 lambda text, beh, mws, table, conc, mc, hc: {'dispatcher': kind, 'behaviours': beh, 'middlewares': mws, 'handlers': table, 'text': text,
-                                                              'concurrent_batch': conc, 'mw_container': mc, 'handler_container': hc},
+                                                              'concurrent_batch': conc, 'mw_container': mc, 'handler_container': hc,
+                                                              'custom_classes': len(beh) % 3 == 0},
                 gen, stdreg.behaviours(), st.lists(s_mw, max_size=3), s_table, st.sampled_from([True, True, False]),
                 st.sampled_from(['list', 'list', 'tuple', 'generator']), st.sampled_from(['list', 'list', 'tuple']),
             )
@@ -83,6 +85,11 @@ class C12(Check):
                  'text': t([{'jsonrpc': '2.0', 'id': 1, 'method': 'nope'}, {'jsonrpc': '2.0', 'method': 'boom'}, {'jsonrpc': '2.0', 'id': 2, 'method': 'echo', 'params': [1]}])},
                 {'dispatcher': kind, 'behaviours': {}, 'middlewares': [{'kind': 'rewrite-response'}, {'kind': 'pass'}], 'handlers': None, 'mw_container': 'generator',
                  'text': t([{'jsonrpc': '2.0', 'id': 1, 'method': 'echo', 'params': [1]}, {'jsonrpc': '2.0', 'method': 'echo', 'params': [1]}])},
+                {'dispatcher': kind, 'behaviours': {}, 'middlewares': [{'kind': 'pass'}, {'kind': 'answer-all'}], 'handlers': None, 'custom_classes': True,
+                 'text': t([{'jsonrpc': '2.0', 'id': 1, 'method': 'echo', 'params': [1]}, {'jsonrpc': '2.0', 'id': 2, 'method': 'nope'}])},
+                {'dispatcher': kind, 'behaviours': {}, 'middlewares': [], 'custom_classes': True,
+                 'handlers': {'generic': [{'kind': 'mutate'}], 'codes': [[-32601, [{'kind': 'annotate'}]], [stack.REPLACE_BASE + 50, [{'kind': 'replace'}]]]},
+                 'text': t([{'jsonrpc': '2.0', 'id': 1, 'method': 'nope'}, {'jsonrpc': '2.0', 'id': 2, 'method': 'boom'}])},
                 {'dispatcher': kind, 'behaviours': {}, 'middlewares': [{'kind': 'short'}, {'kind': 'pass'}], 'handlers': None,
                  'text': t([{'jsonrpc': '2.0', 'id': 1, 'method': 'nope'}, {'jsonrpc': '2.0', 'method': 'echo', 'params': [1]}])},
                 {'dispatcher': kind, 'behaviours': {}, 'middlewares': [{'kind': 'pass'}], 'handlers': {'generic': [{'kind': 'replace'}], 'codes': []},
@@ -107,7 +114,13 @@ class C12(Check):
         mws_arg: Any = mws if container == 'list' else tuple(mws) if container == 'tuple' else (m for m in mws)
         if spec.get('handler_container') == 'tuple':
             table = {k: tuple(v) for k, v in table.items()}
-        d = hm.build_dispatcher(kind, registry, middlewares=mws_arg, error_handlers=table, concurrent_batch=spec.get('concurrent_batch', True))
+        extra: Dict[str, Any] = {}
+        if spec.get('custom_classes'):
+            # the application configured its own (behaviour-preserving) message classes; middlewares still answer with plain pjrpc.Response
+            import pjrpc
+            extra = {'request_class': type('AppRequest', (pjrpc.Request,), {}), 'response_class': type('AppResponse', (pjrpc.Response,), {}),
+                     'batch_request': type('AppBatchRequest', (pjrpc.BatchRequest,), {}), 'batch_response': type('AppBatchResponse', (pjrpc.BatchResponse,), {})}
+        d = hm.build_dispatcher(kind, registry, middlewares=mws_arg, error_handlers=table, concurrent_batch=spec.get('concurrent_batch', True), **extra)
         obs = sh.Observation()
         obs.request_text = docs.render(spec['text'])
         # observe() resets RT with its own sentinel, so drive the dispatcher here
@@ -157,6 +170,8 @@ class C12(Check):
         classes.append(f"mw/{n_mw}")
         if n_mw and container != 'list':
             classes.append(f"mw/passed-as-{container}")
+        if spec.get('custom_classes'):
+            classes.append('dispatcher/custom-message-classes')
         classes.append(f"dispatcher/{kind}")
         if kind == 'async' and not spec.get('concurrent_batch', True):
             classes.append('async/sequential-batch')
